@@ -4,6 +4,7 @@ import (
 	"bytes"
 	"crypto/sha256"
 	"encoding/binary"
+	"fmt"
 	"io"
 	"math"
 
@@ -50,7 +51,16 @@ func readBytes(r io.Reader, size uint64) ([]byte, error) {
 }
 
 // Deserialize reads the message from a reader.
-func (m *Message) Deserialize(r io.Reader) error {
+func (m *Message) Deserialize(r io.Reader) (err error) {
+	// The bytes come from the network. The decoders of embedded structures (transactions, merkle
+	// proofs, signatures) are not all written for hostile input; a panic in one of them must not
+	// take the process down with it.
+	defer func() {
+		if p := recover(); p != nil {
+			err = fmt.Errorf("malformed message : %v", p)
+		}
+	}()
+
 	t, err := wire.ReadVarInt(r, wire.ProtocolVersion)
 	if err != nil {
 		return errors.Wrap(err, "type")
